@@ -70,6 +70,10 @@ class Gen:
                 awaited = at and ae
                 if ends(t) and ends(e) and e:
                     break
+            elif r < 0.86 and r >= 0.84:
+                # a loop whose condition is false at compile time: documented as a delay of exactly one clock
+                out.append(("whileF", rng.choice(["False", "LIMIT > 4", "ENABLE and not True"]), [self.act()] if rng.random() < 0.5 else []))
+                awaited = True
             elif r < 0.84 and depth > 0:
                 c = self.cond() if rng.random() < 0.7 else "t"
                 b, _ = self.block(depth - 1, True, in_sub, False)
@@ -79,7 +83,7 @@ class Gen:
                     break
                 out.append(("while", c, b))
                 awaited = False if c != "t" else awaited
-            elif r < 0.90 and in_loop:
+            elif r < 0.91 and in_loop:
                 if rng.random() < 0.5:
                     out.append(("brk",))
                 else:
@@ -144,6 +148,7 @@ def enum_programs(max_size):
         [("while", 3, [("act", 2, 5), ("await", 0)])],
         [("while", "t", [("await", 2), ("if", 4, [("brk",)], [("cont",)])])],
         [("while", 3, [("await", "t"), ("if", 4, [("cont",)], []), ("act", 0, 6)])],
+        [("whileF", "False", [])],
     ]
     for n in range(1, max_size + 1):
         for combo in itertools.product(range(len(atoms)), repeat=n):
@@ -192,6 +197,9 @@ def render_block(stmts, ind, ent):
         elif k == "while":
             lines.append(f"{pad}while True:" if s[1] == "t" else f"{pad}while {ent}.c{s[1]}:")
             lines += render_block(s[2], ind + 1, ent) or [f"{pad}    pass"]
+        elif k == "whileF":
+            lines.append(f"{pad}while {s[1]}:")
+            lines += render_block(s[2], ind + 1, ent) or [f"{pad}    pass"]
         elif k == "brk":
             lines.append(f"{pad}break")
         elif k == "cont":
@@ -204,7 +212,8 @@ def render_block(stmts, ind, ent):
 
 
 def render_source(prog):
-    out = ["import cohdl", "from cohdl import Bit, Port, Unsigned, Null, true, false", "from cohdl import std", ""]
+    out = ["import cohdl", "from cohdl import Bit, Port, Unsigned, Null, true, false", "from cohdl import std", "",
+           "LIMIT = 3", "ENABLE = True", ""]
     for i, b in enumerate(prog["subs"]):
         out.append(f"async def sub{i}(e):")
         out += render_block(b, 1, "e") or ["    pass"]
@@ -235,6 +244,8 @@ def stmt_sexp(stmts, k, subs):
         return f"(await {s[1]} {r})"
     if t == "awaitF":
         return "awaitF"
+    if t == "whileF":
+        return f"(await t {r})"
     if t == "if":
         return f"(ite {s[1]} {stmt_sexp(s[2], 'skip', subs)} {stmt_sexp(s[3], 'skip', subs)} {r})"
     if t == "while":
@@ -272,6 +283,10 @@ def prog_stats(prog):
             elif s[0] == "while":
                 st["while"] += 1
                 go(s[2], d + 1, True, subs_seen)
+            elif s[0] == "whileF":
+                st["await"] += 1
+                if in_branch:
+                    st["await_in_branch"] += 1
             elif s[0] in ("brk", "cont", "ret"):
                 st["exits"] += 1
             elif s[0] == "call":
